@@ -972,15 +972,23 @@ Proof.
       by (destruct rest; reflexivity).
     destruct (battrs (bbody b)) as [|a0 ar] eqn:BA; cbn [snd].
     { apply panicked_app. split; auto. }
-    match goal with |- panicked (snd (or_panic (map_val ?kvs) ?ds)) = false =>
-      destruct (map_val_same kvs t) as [v [E _]]; [cbn [map]; discriminate| |rewrite E; cbn [snd]] end.
-    + rewrite map_map. apply Forall_map. apply Forall_forall. intros a _. cbn [snd fst].
-      destruct (aeval c (snd a)) as [v1 d1]. destruct (conv v1 t) eqn:Cv; cbn [fst snd type_of]; auto.
-      apply conforms_nodyn_eq; auto. eapply conv_conforms; eauto.
-    + apply panicked_app. split; [exact PR|]. apply panicked_app. split; [apply PJ|].
+    assert (PD : panicked (match rest with [] => [] | _ :: _ => [DDErr E_DuplicateBlock] end ++
+                  match bblocks (bbody b) with [] => [] | _ :: _ => [DDErr E_UnexpectedBlock] end ++
+                  flat_map (fun r0 : list Z * (val * list ddiag) => snd (snd r0))
+                    (map (fun a : list Z * aexpr =>
+                            let '(v, ds) := aeval c (snd a) in
+                            match conv v t with
+                            | COk r0 => (fst a, (r0, ds))
+                            | CErr _ => (fst a, (VUnk t rf_none, ds ++ [DDErr E_AttrValue]))
+                            | CUnsupported => (fst a, (VUnk t rf_none, ds ++ [DDUnsupported]))
+                            end) (a0 :: ar))) = false).
+    { apply panicked_app. split; [exact PR|]. apply panicked_app. split; [apply PJ|].
       apply panicked_flat_map. intros x Ix. apply in_map_iff in Ix as [a [<- _]].
       pose proof (aeval_no_panic c (snd a)) as PA. destruct (aeval c (snd a)) as [v1 d1]. cbn [snd] in PA.
-      destruct (conv v1 t); cbn [snd]; [exact PA| |]; apply panicked_app; split; auto.
+      destruct (conv v1 t); cbn [snd]; [exact PA| |]; apply panicked_app; split; auto. }
+    match goal with |- context [map_val ?kvs] => destruct (map_val kvs) end; cbn [snd].
+    + exact PD.
+    + apply panicked_app. split; [exact PD|reflexivity].
   - (* BlockLabelSpec *)
     cbn [sdecode]. specialize (LB i (or_introl eq_refl)).
     destruct (i <? 0) eqn:L0; [apply Z.ltb_lt in L0; lia|].
@@ -1080,12 +1088,12 @@ Proof.
 Qed.
 
 Theorem decode_body_no_panic s b c partial :
-  wf_spec s -> static_block_attrs s ->
+  wf_spec s ->
   noted (snd (decode_body s b [] c partial)) = false ->
   unsupported (snd (decode_body s b [] c partial)) = false ->
   panicked (snd (decode_body s b [] c partial)) = false.
 Proof.
-  intros [W SC] ST N U. rewrite decode_body_snd in *.
+  intros [W SC] N U. rewrite decode_body_snd in *.
   unfold noted in N. unfold unsupported in U.
   apply app_flag_false in N as [_ N]. apply app_flag_false in U as [_ U].
   apply panicked_app. split; [apply only_errs_no_panic, content_errs|].
@@ -1110,25 +1118,25 @@ Theorem partial_decode_conforms s b c :
 Proof. apply decode_body_conforms. Qed.
 
 Theorem decode_no_panic s b c :
-  wf_spec s -> static_block_attrs s ->
+  wf_spec s ->
   noted (snd (decode s b c)) = false -> unsupported (snd (decode s b c)) = false ->
   panicked (snd (decode s b c)) = false.
 Proof. apply decode_body_no_panic. Qed.
 
 Theorem partial_decode_no_panic s b c :
-  wf_spec s -> static_block_attrs s ->
+  wf_spec s ->
   noted (snd (partial_decode s b c)) = false -> unsupported (snd (partial_decode s b c)) = false ->
   panicked (snd (partial_decode s b c)) = false.
 Proof. apply decode_body_no_panic. Qed.
 
-(* both together: no panic premise needed when BlockAttrsSpec element types are static *)
+(* both together: the panic premise of decode_conforms is implied by the others *)
 Corollary decode_ok s b c :
-  wf_spec s -> static_block_attrs s ->
+  wf_spec s ->
   noted (snd (decode s b c)) = false -> unsupported (snd (decode s b c)) = false ->
   panicked (snd (decode s b c)) = false /\
   type_conforms (type_of (fst (decode s b c))) (implied_type s) = true.
 Proof.
-  intros W ST N U. pose proof (decode_no_panic s b c W ST N U) as P.
+  intros W N U. pose proof (decode_no_panic s b c W N U) as P.
   split; [exact P|]. apply decode_conforms; assumption.
 Qed.
 
@@ -1191,21 +1199,24 @@ Definition wnp_body : abody :=
              blk nm_o [[107; 50]] [] [] ] false [].
 
 Theorem decode_no_panic_nested_blockmap_refuted :
-  wf_spec wnp_spec /\ static_block_attrs wnp_spec /\ panicked (snd (decode wnp_spec wnp_body [])) = true.
-Proof. split; [prove_wf|]. split; [exact I|]. vm_compute. reflexivity. Qed.
-
-(* (4) BlockAttrsSpec with a dynamic element type and attributes of different
-   types: cty.MapVal panics; no documented precondition excludes it *)
-Definition wba_spec : spec := SBlockAttrs nm_b TDyn false.
-Definition wba_body : abody :=
-  ABody [] [ blk nm_b [] [([120], AVal (VNum (nz 1)) false); ([121], AVal (VStr [115]) false)] [] ] false [].
-
-Theorem decode_no_panic_blockattrs_refuted :
-  wf_spec wba_spec /\ panicked (snd (decode wba_spec wba_body [])) = true.
+  wf_spec wnp_spec /\ panicked (snd (decode wnp_spec wnp_body [])) = true.
 Proof. split; [prove_wf|]. vm_compute. reflexivity. Qed.
 
 Theorem decode_no_panic_full_refuted : ~ decode_no_panic_full.
 Proof.
-  intros H. destruct decode_no_panic_blockattrs_refuted as [W F].
-  rewrite (H wba_spec wba_body [] W) in F. discriminate.
+  intros H. destruct decode_no_panic_nested_blockmap_refuted as [W F].
+  rewrite (H wnp_spec wnp_body [] W) in F. discriminate.
 Qed.
+
+(* BlockAttrsSpec with a dynamic element type and attributes of different types
+   (a panic in cty.MapVal before fix cb48ded): an error and an unknown of the
+   implied type *)
+Definition wba_spec : spec := SBlockAttrs nm_b TDyn false.
+Definition wba_body : abody :=
+  ABody [] [ blk nm_b [] [([120], AVal (VNum (nz 1)) false); ([121], AVal (VStr [115]) false)] [] ] false [].
+
+Example blockattrs_dynamic_mixed_types :
+  wf_spec wba_spec /\ panicked (snd (decode wba_spec wba_body [])) = false /\
+  has_err (snd (decode wba_spec wba_body [])) = true /\
+  fst (decode wba_spec wba_body []) = VUnk (TMap TDyn) rf_none.
+Proof. split; [prove_wf|]. vm_compute. repeat split. Qed.
